@@ -301,12 +301,12 @@ Proof.
   destruct q; try discriminate. destruct g as [| |c lhs rhs|]; try discriminate.
   destruct c; try discriminate. destruct lhs as [[| |s ts|]| | |]; try discriminate.
   destruct (Nat.ltb _ _); try discriminate.
-  destruct (terms_as_vars ts []) as [tv|]; try discriminate.
+  destruct (terms_as_vars ts []) as [tv|bad]; try discriminate.
   destruct (negb (set_eqb var_dec _ tv)); try discriminate.
   destruct (memb pred_dec _ taken); try discriminate. destruct (memb pred_dec _ taken'); try discriminate.
   destruct (negb (subsetb var_dec (free_variables rhs) _)); try discriminate.
-  destruct (negb (subsetb pred_dec (predicates rhs) taken)); try discriminate.
-  destruct (negb (subsetb pred_dec (predicates rhs) taken')); try discriminate.
+  destruct (find _ (predicates rhs)); try discriminate.
+  destruct (find _ (predicates rhs)); try discriminate.
   intros [= <- <-] [= <- <-]. auto.
 Qed.
 
